@@ -1027,3 +1027,180 @@ Proof.
     apply jac_back_x; [lia|exact Hb].
   - cbn [jac_Z] in Hb. rewrite Z.mul_0_l, Z.mod_0_l, Z.mod_1_l in Hb by (pose proof p_gt_1; lia). discriminate.
 Qed.
+
+(* ---------------- sm2_key.c: key generation / import of a private key ---------------- *)
+Lemma keygen_loop_sound fuel en d en' :
+  keygen_loop fuel en = Some (d, en') ->
+  exists used b, en = used ++ b :: en' /\ d = le_to_Z b /\ 1 <= d < n - 1.
+Proof.
+  revert en. induction fuel as [|f IH]; intros en H; cbn [keygen_loop] in H; [discriminate|].
+  destruct (rand_range 100 (n - 1) en) as [[k0 en0]|] eqn:Er; [|discriminate].
+  destruct (rand_range_sound _ _ _ _ _ Er) as (used & b & -> & Hk0 & Hlt & _).
+  destruct (k0 =? 0) eqn:E0.
+  - destruct (IH _ H) as (used2 & b2 & -> & Hk & Hrng).
+    exists (used ++ b :: used2), b2. rewrite <- app_assoc. cbn [app]. repeat split; try assumption; lia.
+  - apply Some_inj in H. injection H as <- <-. exists used, b.
+    pose proof (le_to_Z_nonneg b). repeat split; try assumption; lia.
+Qed.
+
+Section KeyOps.
+  Variable NO : numops.
+  (* sm2_key_generate: d is one draw of the stream, in [1, n-2], and the public key is [d]G *)
+  Theorem key_generate_sound en d P rest :
+    key_generate NO en = Some (d, P, rest) ->
+    1 <= d <= n - 2 /\ P = sm2_mulG NO d /\
+    exists used b, en = used ++ b :: rest /\ d = le_to_Z b.
+  Proof.
+    unfold key_generate. destruct (keygen_loop (S (length en)) en) as [[d0 e0]|] eqn:E; [|discriminate].
+    intros H. apply Some_inj in H. injection H as <- <- <-.
+    destruct (keygen_loop_sound _ _ _ _ E) as (used & b & He & Hd & Hr).
+    split; [lia|]. split; [reflexivity|]. exists used, b. split; assumption.
+  Qed.
+
+  (* sm2_key_set_private_key accepts exactly d in [1, n-2] and derives P = [d]G *)
+  Theorem key_set_private_spec d : 0 <= d ->
+    key_set_private NO d = if (1 <=? d) && (d <=? n - 2) then Some (d, sm2_mulG NO d) else None.
+  Proof.
+    intros Hd. unfold key_set_private.
+    destruct (d =? 0) eqn:E0; [replace (1 <=? d) with false by lia; reflexivity|].
+    destruct (n - 1 <=? d) eqn:E1.
+    - replace (d <=? n - 2) with false by lia. rewrite andb_false_r. reflexivity.
+    - replace (1 <=? d) with true by lia. replace (d <=? n - 2) with true by lia. reflexivity.
+  Qed.
+
+  (* sm2_fast_sign_compute_key: (1 + d)^-1 for d < n - 1, error otherwise *)
+  Theorem fast_key_spec d : 0 <= d ->
+    fast_key NO d = if d <? n - 1 then Some (inv_n NO (1 + d)) else None.
+  Proof.
+    intros Hd. unfold fast_key. destruct (n - 1 <=? d) eqn:E.
+    - replace (d <? n - 1) with false by lia. reflexivity.
+    - replace (d <? n - 1) with true by lia.
+      rewrite modn_add_spec by lia. rewrite Z.mod_small by lia.
+      replace (d + 1) with (1 + d) by lia. reflexivity.
+  Qed.
+
+  (* sm2_public_key_digest = SM3(04 || x || y) *)
+  Theorem public_key_digest_spec x y :
+    public_key_digest NO (Some (x, y)) = Some (sm3 (4%N :: point_bytes NO (Some (x, y)))).
+  Proof.
+    unfold public_key_digest. f_equal.
+    set (m := (4%N :: point_bytes NO (Some (x, y)))). clearbody m.
+    change (sm3_update sm3_init m) with (fold_left sm3_update [m] sm3_init).
+    rewrite sm3_stream. cbn [concat]. rewrite app_nil_r. reflexivity.
+  Qed.
+
+  (* sm2_signature_print succeeds only on the canonical encoding (same parse as sm2_verify) *)
+  Theorem signature_print_strict a :
+    bytes_ok a = true -> signature_print_ok a = true ->
+    exists r s, length r = 32%nat /\ length s = 32%nat /\ a = sig_to_der r s.
+  Proof.
+    intros Hok H. unfold signature_print_ok in H.
+    destruct (sig_from_der a) as [[[r s] rest]|] eqn:E; [|discriminate].
+    destruct rest; [|discriminate].
+    destruct (sig_der_canonical _ _ _ _ Hok E) as (Eq & Hr & Hs). rewrite app_nil_r in Eq.
+    exists r, s. repeat split; assumption.
+  Qed.
+
+  (* ---------------- consumption of the entropy stream by the signing loops ---------------- *)
+  Definition is_suffix (a b : ent) : Prop := exists pre, b = pre ++ a.
+  Lemma is_suffix_refl a : is_suffix a a. Proof. exists []. reflexivity. Qed.
+  Lemma is_suffix_trans a b c : is_suffix a b -> is_suffix b c -> is_suffix a c.
+  Proof. intros [p1 ->] [p2 ->]. exists (p2 ++ p1). apply app_assoc. Qed.
+
+  Lemma rand_k_suffix en k en' : rand_k en = Some (k, en') -> is_suffix en' en.
+  Proof.
+    unfold rand_k. intros H. destruct (rand_k_loop_sound _ _ _ _ H) as (used & b & -> & _).
+    exists (used ++ [b]). rewrite <- app_assoc. reflexivity.
+  Qed.
+
+  Lemma sign_loop_suffix fuel d dinv e en sg rest :
+    sign_loop NO fuel d dinv e en = Some (sg, rest) -> is_suffix rest en.
+  Proof.
+    revert en. induction fuel as [|f IH]; intros en H; cbn [sign_loop] in H; [discriminate|].
+    destruct (rand_k en) as [[k en1]|] eqn:Ek; [|discriminate].
+    pose proof (rand_k_suffix _ _ _ Ek) as Hs.
+    destruct (sign_try NO d dinv e k) as [sg0|].
+    - apply Some_inj in H. injection H as _ <-. exact Hs.
+    - eapply is_suffix_trans; [apply (IH _ H)|exact Hs].
+  Qed.
+
+  Lemma sm2_sign_suffix d e en sg rest : sm2_sign NO d e en = Some (sg, rest) -> is_suffix rest en.
+  Proof.
+    unfold sm2_sign, do_sign. destruct (modn_add d 1 =? 0); [discriminate|].
+    destruct (sign_loop NO _ _ _ _ _) as [[sg0 en1]|] eqn:E; [|discriminate].
+    intros H. apply Some_inj in H. injection H as _ <-. exact (sign_loop_suffix _ _ _ _ _ _ _ E).
+  Qed.
+
+  (* sm2_sign_fixlen: the result is an ordinary sm2_sign output, produced on a later part of the
+     entropy stream, whose DER length is the requested one (70, 71 or 72) *)
+  Lemma fixlen_loop_sound trys d e siglen en sg rest :
+    fixlen_loop NO trys d e siglen en = Some (sg, rest) ->
+    length sg = siglen /\ exists en1, is_suffix en1 en /\ sm2_sign NO d e en1 = Some (sg, rest).
+  Proof.
+    revert en. induction trys as [|t IH]; intros en H; cbn [fixlen_loop] in H; [discriminate|].
+    destruct (sm2_sign NO d e en) as [[sg0 en0]|] eqn:Es; [|discriminate].
+    destruct (Nat.eqb (length sg0) siglen) eqn:El.
+    - apply Some_inj in H. injection H as <- <-. split; [apply Nat.eqb_eq, El|].
+      exists en. split; [apply is_suffix_refl|exact Es].
+    - destruct (IH _ H) as (Hl & en1 & Hsuf & Hs). split; [exact Hl|].
+      exists en1. split; [|exact Hs]. eapply is_suffix_trans; [exact Hsuf|exact (sm2_sign_suffix _ _ _ _ _ Es)].
+  Qed.
+
+  Theorem sign_fixlen_sound d e siglen en sg rest :
+    sm2_sign_fixlen NO d e siglen en = Some (sg, rest) ->
+    (siglen = 70 \/ siglen = 71 \/ siglen = 72)%nat /\ length sg = siglen /\
+    exists en1, is_suffix en1 en /\ sm2_sign NO d e en1 = Some (sg, rest).
+  Proof.
+    unfold sm2_sign_fixlen.
+    destruct (Nat.eqb siglen 70 || Nat.eqb siglen 71 || Nat.eqb siglen 72) eqn:E; [|discriminate].
+    intros H. split.
+    - apply orb_true_iff in E. destruct E as [E|E]; [apply orb_true_iff in E; destruct E as [E|E]|];
+        apply Nat.eqb_eq in E; lia.
+    - exact (fixlen_loop_sound _ _ _ _ _ _ _ H).
+  Qed.
+
+  (* sm2_sign_finish_fixlen after init / updates = sm2_sign_fixlen on SM3(Z || M) with the stored key *)
+  Theorem sign_finish_fixlen_stream d P buf idlen z en c en1 chunks siglen en2 :
+    compute_z NO P buf idlen = ZOk z ->
+    sign_init NO d P (Some (buf, idlen)) en = IOk (c, en1) ->
+    sign_finish_fixlen NO (fold_left sign_update chunks c) siglen en2 =
+    if Nat.eqb siglen 0 then None
+    else sm2_sign_fixlen NO d (be_to_Z (sm3 (z ++ concat chunks))) siglen en2.
+  Proof.
+    intros Hz Hi. unfold sign_init, init_hash in Hi. rewrite Hz in Hi.
+    destruct (Nat.eqb idlen 0 || N.ltb 8191 (N.of_nat idlen)); [discriminate|].
+    destruct (pre_compute en) as [[pre en']|]; [|discriminate].
+    apply IOk_inj in Hi. injection Hi as <- <-.
+    rewrite sign_updates. unfold sign_finish_fixlen. cbn [sc_sm3 sc_d].
+    rewrite stream_digest. reflexivity.
+  Qed.
+
+  (* sm2_sign_reset / sm2_verify_reset: the next message is hashed from the saved post-Z state again *)
+  Theorem sign_reset_stream d P buf idlen z en c en1 chunks1 chunks2 :
+    compute_z NO P buf idlen = ZOk z ->
+    sign_init NO d P (Some (buf, idlen)) en = IOk (c, en1) ->
+    sm3_finish (sc_sm3 (fold_left sign_update chunks2 (sign_reset (fold_left sign_update chunks1 c)))) =
+    sm3 (z ++ concat chunks2).
+  Proof.
+    intros Hz Hi. unfold sign_init, init_hash in Hi. rewrite Hz in Hi.
+    destruct (Nat.eqb idlen 0 || N.ltb 8191 (N.of_nat idlen)); [discriminate|].
+    destruct (pre_compute en) as [[pre en']|]; [|discriminate].
+    apply IOk_inj in Hi. injection Hi as <- <-.
+    rewrite (sign_updates NO chunks1). unfold sign_reset. cbn [sc_saved sc_d sc_fast sc_pre sc_num].
+    rewrite (sign_updates NO chunks2). cbn [sc_sm3]. apply stream_digest.
+  Qed.
+
+  Theorem verify_reset_stream P buf idlen z c chunks1 chunks2 :
+    compute_z NO P buf idlen = ZOk z ->
+    verify_init NO P (Some (buf, idlen)) = IOk c ->
+    sm3_finish (vc_sm3 NO (fold_left (verify_update NO) chunks2
+                             (verify_reset NO (fold_left (verify_update NO) chunks1 c)))) =
+    sm3 (z ++ concat chunks2).
+  Proof.
+    intros Hz Hi. unfold verify_init, init_hash in Hi. rewrite Hz in Hi.
+    destruct (Nat.eqb idlen 0 || N.ltb 8191 (N.of_nat idlen)); [discriminate|].
+    apply IOk_inj in Hi. subst c.
+    rewrite (verify_updates NO chunks1). unfold verify_reset. cbn [vc_saved vc_P].
+    rewrite (verify_updates NO chunks2). cbn [vc_sm3]. apply stream_digest.
+  Qed.
+End KeyOps.
